@@ -158,6 +158,18 @@ type c04World struct {
 	hc    *http.Client
 	users []c04User
 	ports map[string]int
+	// trusted = the listeners trust 127.0.0.1 as a proxy, so X-Forwarded-For chooses the client address.
+	// Otherwise (the default configuration: no trusted proxies) the header is a forgery and must be ignored:
+	// every request comes from 127.0.0.1 (seeded change C04-s1).
+	trusted bool
+}
+
+// effIP is the client address the server must use for a request.
+func (w *c04World) effIP(r c04Req) string {
+	if w.trusted {
+		return r.cl.ip
+	}
+	return "127.0.0.1"
 }
 
 func (w *c04World) do(r c04Req) c04Res {
@@ -220,7 +232,7 @@ func (w *c04World) expect(r c04Req) string {
 	}
 	u, p := r.cl.effUser(), r.cl.effPass()
 	if r.listener != "playback" {
-		if c04Admits(w.users, u, p, r.cl.ip, c04Action[r.listener], "") {
+		if c04Admits(w.users, u, p, w.effIP(r), c04Action[r.listener], "") {
 			return "not401"
 		}
 		return "401"
@@ -230,7 +242,7 @@ func (w *c04World) expect(r c04Req) string {
 		return "404" // nothing is served there
 	case !r.pbScoped:
 		return "400" // no (valid) path name: nothing to authorize, nothing to serve
-	case c04Admits(w.users, u, p, r.cl.ip, "playback", r.pbPath):
+	case c04Admits(w.users, u, p, w.effIP(r), "playback", r.pbPath):
 		return "not401"
 	}
 	return "401"
@@ -303,9 +315,13 @@ func TestVerifC04Admin(t *testing.T) {
 			SRT:    rapid.Bool().Draw(t, "srt"),
 			Paths:  "  recA:\n  recB:\n  cam9:\n",
 		}
-		opts.Extra = c04UsersYAML(w.users) +
-			"apiTrustedProxies: ['127.0.0.1']\nmetricsTrustedProxies: ['127.0.0.1']\n" +
-			"pprofTrustedProxies: ['127.0.0.1']\nplaybackTrustedProxies: ['127.0.0.1']\n" +
+		w.trusted = rapid.SampledFrom([]bool{true, true, false, true}).Draw(t, "trustedProxies")
+		proxies := ""
+		if w.trusted {
+			proxies = "apiTrustedProxies: ['127.0.0.1']\nmetricsTrustedProxies: ['127.0.0.1']\n" +
+				"pprofTrustedProxies: ['127.0.0.1']\nplaybackTrustedProxies: ['127.0.0.1']\n"
+		}
+		opts.Extra = c04UsersYAML(w.users) + proxies +
 			"rtspAuthMethods: [basic]\n" +
 			"pathDefaults:\n  recordDeleteAfter: 0s\n  recordPath: " + filepath.Join(dir, "%path/%Y-%m-%d_%H-%M-%S-%f") + "\n"
 		core, err := c04StartCore(opts)
